@@ -41,6 +41,16 @@ P = {
   note="Trusted: serde_json parsing and HashMap lookup; rustc MIR. Rules do not depend on the layout file's contents except the entry-name bijection with the bundled Probhat.json.",
   technique="decision-table extraction from MIR + 3-way table agreement + truth tables + frame rule (who-may-write)",
   ref="§4 C04"),
+ "C06": dict(
+  text="Per-path abstract interpretation ({Empty, MaybeNonEmpty} per field of the method struct, refined on is_empty/is_some branch edges) "
+       "of every acyclic MIR path of commit, finish and back-space in both methods: every terminating exit must leave every composition field "
+       "empty; the session flag is extracted as a truth table over the session-defining fields; idle back-space must be inert and every other "
+       "back-space must shrink the session state. Decides the 'erases every trace' and 'flag tells the truth' clauses structurally; the "
+       "differential 'behaves like new' clause only as far as 'all composition fields are empty'.",
+  note="Trusted: rustc MIR; std String/Vec/Option method semantics as classified in the rule (clear/take empty, push grows, pop shrinks). "
+       "Non-composition state that legitimately survives (memo, learned selections) is C05/C09's subject.",
+  technique="path-sensitive field-state dataflow over MIR + truth-table extraction + sibling belief consistency",
+  ref="§4 C06, §3 A8"),
  "C16": dict(
   text="Truth table of the English-option getter; dominance with polarity of every emoji / raw-text push by the ANSI or masked-English guard "
        "(through closures); provenance of the ANSI argument at all six Suggestion constructor sites; path-sensitive decision table of the read-out; "
